@@ -183,7 +183,10 @@ VF_ZCFG_END
 VF_ZCFG_BEGIN(18, 5, true, false, P320_64, 12, 3, 1)   // 320-byte / 64-aligned payload, a substitution limit between the small ones and 255, 4 and 5 injections
 	static constexpr int inj(int i) { return i == 4 ? 1 : i == 2 ? 5 : i == 1 ? 4 : 0; } static constexpr int headInj() { return 0; } static constexpr bool bare(int) { return false; }
 VF_ZCFG_END
-static constexpr int ZOO_COUNT = 19;
+VF_ZCFG_BEGIN(19, 70, false, true, P2_2, 3, 6, 1)   // more states than one machine word has bits (ids 64..69), headless, manual
+	static constexpr int inj(int i) { return i == 69 ? 2 : i == 64 ? 1 : 0; } static constexpr int headInj() { return 0; } static constexpr bool bare(int) { return false; }
+VF_ZCFG_END
+static constexpr int ZOO_COUNT = 20;
 
 // ---- config type builder --------------------------------------------------------------------------
 template <class C, int K> struct WithCtx;
@@ -376,10 +379,10 @@ struct Tmpl {
 	template <int I> using S = StT<CFG, I, Z::kind(I)>;
 	using Seq = std::make_index_sequence<N>;
 
-	template <class M, size_t... Is> static uint64_t activeMask(const M& m, std::index_sequence<Is...>) {
-		uint64_t mask = 0;
+	template <class M, size_t... Is> static Mask activeMask(const M& m, std::index_sequence<Is...>) {
+		Mask mask = 0;
 		const bool each[] = {m.template isActive<S<int(Is)>>()...};
-		for (size_t k = 0; k < sizeof...(Is); ++k) if (each[k]) mask |= (1ull << k);
+		for (size_t k = 0; k < sizeof...(Is); ++k) if (each[k]) mask |= (Mask(1) << k);
 		return mask;
 	}
 	template <size_t... Is> static bool idsOk(std::index_sequence<Is...>) {
@@ -567,8 +570,8 @@ struct Runner {
 		Instance& m = *ptr(i);
 		e.live = 1;
 		e.mAct = m.activeStateId();
-		uint64_t mask = 0;
-		for (int k = 0; k < N; ++k) if (m.isActive(static_cast<ffsm2::StateID>(k))) mask |= (1ull << k);
+		Mask mask = 0;
+		for (int k = 0; k < N; ++k) if (m.isActive(static_cast<ffsm2::StateID>(k))) mask |= (Mask(1) << k);
 		e.mActMask = mask;
 		if (Tmpl<CFG>::activeMask(m, typename Tmpl<CFG>::Seq{}) != mask || !Tmpl<CFG>::idsOk(typename Tmpl<CFG>::Seq{})) e.tmplOk = 0;   // isActive<T>() / stateId<T>() agree with the id forms
 		if constexpr (Z::IS_MANUAL) e.mManual = m.isActive() ? 1 : 0; else e.mManual = 2;
@@ -635,8 +638,8 @@ struct Runner {
 		e.evtOk = (evt == nullptr) ? 1 : (evt == W.evtAddr);
 		// control view
 		e.sid = control.stateId();
-		uint64_t mask = 0;
-		for (int k = 0; k < N; ++k) if (control.isActive(static_cast<ffsm2::StateID>(k))) mask |= (1ull << k);
+		Mask mask = 0;
+		for (int k = 0; k < N; ++k) if (control.isActive(static_cast<ffsm2::StateID>(k))) mask |= (Mask(1) << k);
 		e.cAct = mask;
 		if (Tmpl<CFG>::activeMask(control, typename Tmpl<CFG>::Seq{}) != mask || !Tmpl<CFG>::ctlIdsOk(control, typename Tmpl<CFG>::Seq{})) e.ctmplOk = 0;
 		e.req = trOf(control.request());
@@ -1241,8 +1244,9 @@ struct Runner {
 		f.cfg = CFG; f.N = N; f.L = Z::L; f.head = Z::HAS_HEAD; f.manual = Z::IS_MANUAL;
 		if constexpr (HAS_PAY) { f.paySize = sizeof(Payload); f.payAlign = alignof(Payload); }
 		f.ctx = Z::CTX; f.cap = CAP;
-		for (int i = 0; i < N && i < 64; ++i) {
-			f.inj[i] = Z::inj(i); if (Z::bare(i)) f.bare |= (1ull << i);
+		static_assert(N <= MASK_BITS, "the trace describes machines of up to 128 states");
+		for (int i = 0; i < N && i < MASK_BITS; ++i) {
+			f.inj[i] = Z::inj(i); if (Z::bare(i)) f.bare |= (Mask(1) << i);
 			f.defMask[i] = Z::kind(i) == 0 ? 0xFFFF : Z::kind(i) == 1 ? 0 : Z::kind(i) == 2 ? DEF_A : DEF_B;
 		}
 		f.headInj = Z::headInj();
